@@ -62,7 +62,8 @@ def run(ctx):
     spec_cases = []
     for label, g in [("exh", tok_corr.gen_exhaustive(2, cfgs)), ("prefix", tok_corr.gen_prefixed(1)),
                      ("soup", tok_corr.gen_soup(rng, 60000 if thorough else 6000)),
-                     ("extra", spec_corr.gen_extra_prefixed()), ("sig", spec_corr.gen_random_sig(rng, 20000 if thorough else 3000))]:
+                     ("extra", spec_corr.gen_extra_prefixed()), ("sig", spec_corr.gen_random_sig(rng, 20000 if thorough else 3000)),
+                     ("numref", spec_corr.gen_numeric_refs())]:
         spec_cases += list(g)
     # a last-start-tag with upper-case ASCII can never come from the tokenizer: outside the property's domain
     spec_cases = [c for c in spec_cases if c[1] is None or c[1] == spec_corr._ascii_lower(c[1])]
